@@ -201,6 +201,18 @@ class TaskScenario(ScenarioData):
 
         return all(successor.get("scheduled", self.scenarioIdx) for successor in successors)
 
+    def _dependsOnMe(self, pred: Any) -> bool:
+        """
+        True if a dependency on `pred` is a dependency on this task: `pred` is the task
+        itself or one of its enclosing containers (a container ends when its last child does).
+        """
+        node: Any = self.property
+        while node is not None:
+            if pred is node:
+                return True
+            node = node.parent
+        return False
+
     def _getSuccessors(self) -> list[Any]:
         """
         Get all tasks that depend on this task (successors).
@@ -226,7 +238,7 @@ class TaskScenario(ScenarioData):
                 else:
                     pred = dep
 
-                if pred is self.property:
+                if self._dependsOnMe(pred):
                     successors.append(task)
                     break
 
@@ -251,7 +263,7 @@ class TaskScenario(ScenarioData):
                 onstart = getattr(dep, "onstart", False)
             else:
                 continue
-            if pred is self.property and gapduration and not onstart:
+            if self._dependsOnMe(pred) and gapduration and not onstart:
                 gap_hours = max(gap_hours, self._parse_duration(gapduration, calendar=True))
         return gap_hours
 
@@ -280,7 +292,7 @@ class TaskScenario(ScenarioData):
                     maxgap = None
                     gap = None
 
-                if pred is self.property and maxgap:
+                if self._dependsOnMe(pred) and maxgap:
                     result.append((task, maxgap, gap))
                     break
         return result
